@@ -4,7 +4,7 @@
    The model (C12_Model: Connector + client side of TcpClient + the TcpConnection life cycle it touches) is tied to
    muduo/net/Connector.cc, TcpClient.cc by bin/check C12 (differential execution, regenerated facts Gen_C12/Gen_Consts). *)
 From Coq Require Import List ZArith Lia Bool Arith.
-From Muduo Require Import Gen_Consts Gen_C12 C12_Model C12_Hyg C12_Trace C12_Inv C12_Proofs.
+From Muduo Require Import Gen_Consts Gen_C12 C12_Model C12_Hyg C12_Trace C12_Inv C12_Proofs C12_Loop.
 Import ListNotations.
 Local Open Scope Z_scope.
 
@@ -144,6 +144,27 @@ Theorem C12_stop_closes_completing_attempt : forall s i, k_chan s = Some (i, tru
     nth_error (socks s1) i = option_map close_state (nth_error (socks s) i) /\ connection s1 = connection s /\ conns s1 = conns s.
 Proof. exact completes_after_stop_is_closed. Qed.
 Print Assumptions C12_stop_closes_completing_attempt.
+
+(* ---- the environment contract `timely` derived from a live event loop.
+        lcontract since s o: as `contract`, but for TimerFire / RunPending only `live`: nothing is queued, or the loop did not
+        sleep (a timer is already due) and the functor queue was last run less than Bq = 498 ms ago; `since` is the time from
+        which on everything queued was queued (threaded through the history, not part of the state). *)
+Theorem C12_timely_derived : forall s q, lreachable s q -> min_due (timers s) <> None -> live q s true = true -> timely s = true.
+Proof. exact timely_derived. Qed.
+Print Assumptions C12_timely_derived.
+
+Theorem C12_live_loop_admissible : forall l s q, Inv s -> Tinv s q -> ladmissible q s l -> admissible s l.
+Proof. exact ladmissible_admissible. Qed.
+Print Assumptions C12_live_loop_admissible.
+
+Theorem C12_destroy_safe_live_loop : forall l, ladmissible 0 init l -> run init l <> None.
+Proof. exact no_fault_live_loop. Qed.
+Print Assumptions C12_destroy_safe_live_loop.
+
+Example C12_live_loop_examples :
+  (ladmissible 0 init ex_backoff /\ ladmissible 0 init ex_retry_cycle /\ ladmissible 0 init ex_foreign) /\
+  (~ ladmissible 0 init [Destroy; TimerFire; RunPending] /\ ~ ladmissible 0 init [Connect; EvError; TimerFire]).
+Proof. exact (conj live_loop_examples stalled_not_live). Qed.
 
 (* ---- the findings: what the property text allows and the code does not survive *)
 Theorem C12_stop_then_connect_refuted :
